@@ -8,10 +8,12 @@ EXPLANATION = ("One structural necessary condition of C19, decided over the CFG 
                "an Or token has a handler in the And / Or arm of token_tree_to_goal that turns it into an operand. If a kind "
                "is grouped but not handled, the sub-goals under it silently disappear from the parsed goal (`a, b; c` parsed "
                "as `c`), so the printed goal cannot reproduce the text. Also: the symbol each Infix variant is recognised by "
-               "is the symbol its Display writes. Nothing else of C19 (round trips of terms, numbers, lists, facts) is decided.")
+               "is the symbol its Display writes; and the number arms of Display for Unifiable hand the stored number itself to the "
+               "formatter. Nothing else of C19 (round trips of terms, lists, facts; how a number is spelled and read back) is decided.")
 RULES = ("R1 writer/reader agreement on token kinds: kinds pushed into a list that becomes an And / Or branch token ⊆ kinds the "
          "And / Or arm of token_tree_to_goal converts into operands; R2 Display(Infix::V) writes the symbol the scanners "
-         "recognise for V")
+         "recognise for V; R3 on every path of the SInteger / SFloat arm of Display(Unifiable) the value formatted is the stored payload, "
+         "not a value computed from it")
 TRUSTED = ["rustc nightly MIR construction", "bounded unrolling: each loop body is walked up to 2 times per path (kinds are collected as a union over paths)"]
 
 KINDS = ("Subgoal", "And", "Or", "Group", "Comma", "Semicolon", "LParen", "RParen", "Complex", "LinkedList", "Empty")
@@ -213,3 +215,47 @@ def run(ctx):
         ok = bool(sh) and sh <= syms          # what is printed for V is (one of) the spelling(s) recognised as V
         ctx.ob("R2", "symbol(%s)" % v, ok, ctx.where(D), "recognised as %s, displayed as %s" % (sorted(syms), sorted(sh)))
     ctx.floor("R2", n, 8, "infix variants recognised by the scanners")
+
+    # ---- R3: the number arms of Display(Unifiable) hand the stored number itself to the formatter --------------------
+    # (necessary for "printing reproduces the text / reparsing gives an equal value": a rounded, scaled or truncated copy
+    # prints another number. How the standard formatter spells an i64 / f64 is not decided here.)
+    U = next((b for b in prog.lib_bodies() if b.path.startswith("<unifiable::Unifiable as std::fmt::Display>::fmt")), None)
+    if U is None:
+        ctx.ob("R3", "numbers-printed-as-stored", True, "", "not evaluated: no Display for Unifiable in this tree")
+        return
+    ctx.fn(U)
+    from sym import unclone
+    me = ("param", 1, U.locals[1].get("name") or "")
+    NUM = ("SInteger", "SFloat")
+    verdict = {}
+    for p in Walker(U, max_visits=2, inline=pol).paths():
+        if p.end != "return":
+            continue
+        vs = p.refine.get(me)
+        if vs is None or len(vs) != 1 or list(vs)[0] not in NUM:
+            continue
+        v = list(vs)[0]
+        payload = ("field", me, v + ".0")
+        given = []
+        for e in p.calls():
+            c = e["callee"]
+            if e["args"] and (("Argument" in c and "::new_" in c) or c.endswith("Display>::fmt") or c.endswith("::to_string")):
+                a = unclone(e["args"][0])
+                if a == payload or mentions(a, lambda t: t == payload):
+                    given.append(a)
+        st = verdict.setdefault(v, {"n": 0, "bad": []})
+        st["n"] += 1
+        st["bad"] += [show(a)[:120] for a in given if a != payload]
+        if not given:
+            st.setdefault("unseen", True)
+    n = 0
+    for v in NUM:
+        st = verdict.get(v)
+        if st is None or st.get("unseen"):
+            ctx.ob("R3", "numbers-printed-as-stored(%s)" % v, True, ctx.where(U),
+                   "not evaluated: no path of the %s arm hands a value derived from its number to a formatter call" % v)
+            continue
+        n += 1
+        ctx.ob("R3", "numbers-printed-as-stored(%s)" % v, not st["bad"], ctx.where(U),
+               "the formatter is given %s, a value computed from the stored number, not the number itself" % ", ".join(sorted(set(st["bad"])))
+               if st["bad"] else "%d path(s): the stored number itself is what is formatted" % st["n"])
